@@ -29,6 +29,7 @@ type Scenario struct {
 	Src      string   `json:"src"`
 	Args     []string `json:"args"`
 	Readable bool     `json:"readable"`
+	Rel      string   `json:"rel"`    // "" | "sub": the file is named by a relative path with a directory part (sub/x.ank), the command started in its parent | "dot": ./x.ank
 	Unread   string   `json:"unread"` // how the file argument is unreadable: "" / "missing" (no such file) | "dir" (a directory) | "perm" (no read permission)
 }
 
@@ -64,7 +65,12 @@ func libMain(args []string) {
 }
 
 func runCmd(name string, args ...string) (stdout string, code int, timedOut bool) {
+	return runCmdIn("", name, args...)
+}
+
+func runCmdIn(wd, name string, args ...string) (stdout string, code int, timedOut bool) {
 	cmd := exec.Command(name, args...)
+	cmd.Dir = wd
 	var out bytes.Buffer
 	cmd.Stdout = &out
 	cmd.Stdin = strings.NewReader("")
@@ -143,7 +149,20 @@ func main() {
 			}
 			cargs = append([]string{p}, s.Args...)
 		}
-		o.Stdout, o.Exit, o.TimedOut = runCmd(anko, cargs...)
+		wd := ""
+		if s.Mode != "e" && s.Readable && s.Rel != "" {
+			wd = dir
+			rel := filepath.Base(path)
+			if s.Rel == "sub" {
+				os.MkdirAll(filepath.Join(dir, "sub"), 0o755)
+				os.WriteFile(filepath.Join(dir, "sub", rel), []byte(s.Src), 0o644)
+				rel = filepath.Join("sub", rel)
+			} else {
+				rel = "." + string(filepath.Separator) + rel
+			}
+			cargs[0] = rel
+		}
+		o.Stdout, o.Exit, o.TimedOut = runCmdIn(wd, anko, cargs...)
 		if s.Readable || s.Mode == "e" {
 			lo, lc, lt := runCmd(self, append([]string{"lib", path}, s.Args...)...)
 			o.LibStdout = lo
